@@ -16,6 +16,7 @@ from txtorcon import TorControlProtocol, TorState                     # noqa: E4
 from txtorcon import circuit as circuit_mod                           # noqa: E402
 from txtorcon.circuit import Circuit, TorCircuitEndpoint              # noqa: E402
 from txtorcon.interface import IStreamAttacher                        # noqa: E402
+from txtorcon.attacher import PriorityAttacher                        # noqa: E402
 
 import simtor                                                         # noqa: E402
 import tsm                                                            # noqa: E402  (line rendering helpers)
@@ -49,6 +50,21 @@ class Scripted(object):
         return val
 
 
+@implementer(IStreamAttacher)
+class SubScripted(object):
+    """a sub-attacher of the PriorityAttacher: answers as the script says and records that it was consulted"""
+    def __init__(self, run, name):
+        self.run, self.name = run, name
+        self.next = "none"
+
+    def attach_stream_failure(self, stream, fail):
+        return None
+
+    def attach_stream(self, stream, circuits):
+        self.run.cons.append(self.name)
+        return self.run.answer_object(self.next)
+
+
 class FakeTarget(object):
     def __init__(self):
         self.addr_d = defer.Deferred()
@@ -80,6 +96,9 @@ class Run(object):
         assert self.state.post_bootstrap.called
         self.reactor = proto_helpers.MemoryReactorClock()
         self.A, self.B = Scripted(self), Scripted(self)
+        self.P = PriorityAttacher()
+        self.subs = dict((n, SubScripted(self, n)) for n in ("x", "y", "z"))
+        self.cons = []
         self.pending = {}
         self.reps = {1: 0, 2: 0, 3: 0}
         self.cur_stream = None
@@ -116,6 +135,7 @@ class Run(object):
 
     def step(self, e):
         a = e["a"]
+        self.cons = []
         try:
             if a == "CircStep":
                 c, to = e["c"], e["to"]
@@ -131,7 +151,7 @@ class Run(object):
                 self.sim.event("650 CIRC %s\r\n" % line)
             elif a == "SetAttacher":
                 who = e["who"]
-                obj = {"A": self.A, "B": self.B, "none": None}[who]
+                obj = {"A": self.A, "B": self.B, "P": self.P, "none": None}[who]
                 try:
                     self.state.set_attacher(obj, self.reactor)
                 except RuntimeError:
@@ -141,6 +161,18 @@ class Run(object):
                 s = e["s"]
                 self.cur_stream = s
                 self.A.next = (e["ans"], e["mode"])
+                tgt = {"normal": "www.example.com:80", "exit": "www.example.com.abcd.exit:80", "resolve": "www.example.com:0"}[e["kind"]]
+                status = "NEWRESOLVE" if e["kind"] == "resolve" else "NEW"
+                self.sim.event("650 STREAM %d %s 0 %s SOURCE_ADDR=127.0.0.1:%d PURPOSE=USER\r\n" % (s, status, tgt, e["p"]))
+            elif a == "AddSub":
+                self.P.add_attacher(self.subs[e["x"]], e["prio"])
+            elif a == "RemSub":
+                self.P.remove_attacher(self.subs[e["x"]])
+            elif a == "NewStreamP":
+                s = e["s"]
+                self.cur_stream = s
+                for n, sub in self.subs.items():
+                    sub.next = e["sa"][n]
                 tgt = {"normal": "www.example.com:80", "exit": "www.example.com.abcd.exit:80", "resolve": "www.example.com:0"}[e["kind"]]
                 status = "NEWRESOLVE" if e["kind"] == "resolve" else "NEW"
                 self.sim.event("650 STREAM %d %s 0 %s SOURCE_ADDR=127.0.0.1:%d PURPOSE=USER\r\n" % (s, status, tgt, e["p"]))
@@ -196,13 +228,13 @@ class Run(object):
                 wire.append(["SETCONF", 0, int(line.split("=")[1].strip('"'))])
         self.nlog = len(self.sim.log)
         a = self.state._attacher
-        att = "none" if a is None else "A" if a is self.A else "V" if a is circuit_mod._get_circuit_attacher.attacher else "?"
+        att = "none" if a is None else "A" if a is self.A else "P" if a is self.P else "V" if a is circuit_mod._get_circuit_attacher.attacher else "?"
         via = []
         for k in ("k1", "k2"):
             v = self.via[k]
             # "waitaddr" = the underlying SOCKS connect has been started; before that the connection waits
             via.append(("waitaddr" if v["tgt"].connected else "wait") if v["st"] == "wait" else v["st"])
-        return dict(wire=wire, att=att, rep=[self.reps[1], self.reps[2], self.reps[3]], via=via, exc=self.exc)
+        return dict(wire=wire, att=att, cons=list(self.cons), rep=[self.reps[1], self.reps[2], self.reps[3]], via=via, exc=self.exc)
 
 
 def replay(script):
